@@ -86,14 +86,17 @@ Definition w76 : string := "post".
 
 Inductive case :=
 | CRoute (a : attrs) (ps : list policy) (eps : list string) (o : obs)
+| COverlap (a : attrs) (old new : list policy) (eps : list string) (k : nat) (o : ov_obs)
 | CBroken.                                  (* the harness panicked / gave no usable observation *)
 
 (* what the model predicts for one ClusterInfo *)
-Definition model_ma (a : attrs) (ps : list policy) (eps : list string) : ma_obs :=
-  match match_attributes a ps eps with
+Definition to_ma (r : option (string * list string)) : ma_obs :=
+  match r with
   | None => mkMA true false "" []
   | Some (f, ups) => mkMA false true f ups
   end.
+Definition model_ma (a : attrs) (ps : list policy) (eps : list string) : ma_obs :=
+  to_ma (match_attributes a ps eps).
 
 Definition agree (a : attrs) (ps : list policy) (eps : list string) (o : obs) : bool :=
   opt_nat_eqb (o_idx o) (match_policies a ps)
@@ -105,7 +108,16 @@ Definition agree (a : attrs) (ps : list policy) (eps : list string) (o : obs) : 
      | _, _ => false
      end.
 
-(* clause layout: agree, first_match, reject_iff_none, chosen_policy, age_independent *)
+(* k = 0: the harness runs Sync(new) right before the call; k >= 1: the k-th attribute getter
+   called by the matcher runs Sync(new) (all getters are called after the list was loaded; the
+   model's interruption points are per policy read, and C01_overlapping_sync_old_or_new shows the
+   answer does not depend on which point >= 1 it is) *)
+Definition agree_overlap (a : attrs) (old new : list policy) (eps : list string) (k : nat) (o : ov_obs) : bool :=
+  ma_eqb (ov_during o) (to_ma (overlapped_match a old new eps k))
+  && ma_eqb (ov_after o) (model_ma a (if ov_fired o then new else old) eps)
+  && match k with O => ov_fired o | _ => true end.
+
+(* clause layout: agree, first_match, reject_iff_none, chosen_policy, age_independent, atomic_list *)
 Definition eval (c : case) : list bool :=
   match c with
   | CRoute a ps eps o =>
@@ -113,6 +125,9 @@ Definition eval (c : case) : list bool :=
         first_ok a ps o;
         reject_ok a ps (o_fresh o) && reject_ok a ps (o_aged o);
         chosen_ok a ps eps (o_fresh o) && chosen_ok a ps eps (o_aged o);
-        age_ok o ]
-  | CBroken => [false; false; false; false; false]
+        age_ok o;
+        true ]
+  | COverlap a old new eps k o =>
+      [ agree_overlap a old new eps k o; true; true; true; true; atomic_list_ok a old new eps o ]
+  | CBroken => [false; false; false; false; false; false]
   end.
